@@ -280,11 +280,13 @@ def elementPrologue (P : Params) (s : Stack) (attrs : List Attr) : Res (List Att
 def setMany (s : Stack) (kvs : Scope) : Stack := kvs.foldl (fun st (kv : Str × Val) => st.set kv.1 kv.2) s
 
 -- `propagateTemplateAttributes(clone)`: for every `<template>` in the subtree, each `:x`/`v-bind:x` whose name can be
--- looked up is written into the scope below the top one
+-- looked up is written into the scope below the top one. It runs AFTER the clone was evaluated, and evaluation rewrites the bound
+-- attributes of a `<template include>` in place into static ones (evalTemplate calls evalAttributes on the node itself), so an include tag
+-- has no bound attribute left to propagate. (Not modelled: an include tag in an untaken v-if branch keeps its bound attributes.)
 mutual
 def propagateNode (cfg : ReflectCfg) : Stack → Node → Stack
   | s, .elem tag attrs kids =>
-    let s1 := if tag == S "template" then
+    let s1 := if tag == S "template" && !hasAttr attrs (S "include") then
       attrs.foldl (fun (st : Stack) (a : Attr) =>
         match isBoundKey a.1 with
         | some name =>
